@@ -251,6 +251,8 @@ impl<'a> CompilerState<'a> {
                 break;
             }
         }
+        // A position at or past the end of the text maps to the last line
+        let line_number = line_number.min(self.mapped_lines.len().saturating_sub(1));
         let included_in = self.mapped_lines[line_number]
             .2
             .as_ref()
@@ -275,6 +277,8 @@ impl<'a> CompilerState<'a> {
                 break;
             }
         }
+        // A position at or past the end of the text maps to the last line
+        let line_number = line_number.min(self.mapped_lines.len().saturating_sub(1));
         let included_in = self.mapped_lines[line_number]
             .2
             .as_ref()
@@ -299,6 +303,8 @@ impl<'a> CompilerState<'a> {
                 break;
             }
         }
+        // A position at or past the end of the text maps to the last line
+        let line_number = line_number.min(self.mapped_lines.len().saturating_sub(1));
         let included_in = self.mapped_lines[line_number]
             .2
             .as_ref()
